@@ -13,3 +13,5 @@ import BnpVerif.Props.C01
 #print axioms C01.entries_chunks_kLine
 #print axioms C01.whole_read
 #print axioms C01.chunked_eq_whole
+#print axioms C01.accumulateCap_refines
+#print axioms C01.capped_read
